@@ -83,7 +83,8 @@ def run(ctx, chk):
     def keep_opaque(x):
         by_value_ctx = any(x.crate.tystr(x.locals[i]['ty']) == ctx_ty for i in range(1, x.argc + 1))
         # helpers with their own loops (the web constructor) and the broadcast are analysed on their own
-        return by_value_ctx or (bcb is not None and x.path == bcb.path) or bool(x.back_edges()) or x.crate.name != common.DAEMON
+        own_loop = bool(x.back_edges()) and not common.reaches_call(fb, x, lambda nm: nm.split('::')[-1] in ('recv', 'recv_timeout', 'try_recv'))
+        return by_value_ctx or (bcb is not None and x.path == bcb.path) or own_loop or x.crate.name != common.DAEMON
     eng = common.mk_engine(fb, no_inline=keep_opaque)
     paths = [p for p in eng.run(tmb) if p.kind != 'unreachable']
     chk.analysed['paths'] += len(paths)
@@ -92,7 +93,7 @@ def run(ctx, chk):
     main_ids = set()
     for p in paths:
         for ef in p.effects:
-            if ef['kind'] == 'call' and not ef['tracing'] and ef['callee'].split('::')[-1] in ('recv', 'recv_timeout', 'try_recv') and ef['site'][0] == tmb.path:
+            if ef['kind'] == 'call' and not ef['tracing'] and ef['callee'].split('::')[-1] in ('recv', 'recv_timeout', 'try_recv'):
                 rv = ef['pointees'][0] if ef.get('pointees') and ef['pointees'][0] is not None else ef['args'][0]
                 mid = mailbox_id_of(eng, p, rv, ids.values()) or mailbox_id_of(eng, p, ef['args'][0], ids.values())
                 if mid:
